@@ -46,11 +46,82 @@ def nontrivial(case):
     return len(w) >= 14 and w[6].count(",") >= 1
 
 
+def c03d_tie(ctx, state):
+    """C03d: tie D for parol's whole LALR(1) path up to the table construction (`parolLRGrammar`, Props/C03d.lean:
+    EBNF grammar as written -> canonicalisation (LALR flavour) -> checks -> augment_grammar -> numbering) + the oracle
+    that evaluates the hypotheses of parol_lr_end_to_end (lrTableValid, lrCompleteCertB against the MODEL's grammar) and
+    its statement (all short words) on the REAL lalry tables."""
+    cases_p, impl_p, model_p = ctx.path("c03d_cases.txt"), ctx.path("c03d_impl.txt"), ctx.path("c03d_model.txt")
+    okg, errg = common.gen_cases("c03d", ctx.seed, ctx.tier, cases_p)
+    cases = common.read_lines(cases_p) if okg else []
+    oki, erri = common.run_impl("c03d", cases_p, impl_p)
+    impl = common.read_lines(impl_p)
+    common.run_model(cases_p, model_p)
+    model = common.read_lines(model_p)
+    if not okg or not oki or len(impl) != len(cases) or not cases:
+        common.violation(ctx, "C03_c03d_impl_run.json", {
+            "broken": "correspondence D:c03d (implementation driver crashed or produced too few replies)",
+            "stderr": (errg if not okg else erri), "replies": len(impl), "cases": len(cases)}, no_input=True)
+        return
+    diffs = common.diff_streams(cases, impl, model)
+    # the real LALR(1) tables (calculate_lalr1_parse_table + export model) of the same grammars
+    treq_p, tabs_p = ctx.path("c03d_table_req.txt"), ctx.path("c03d_tables.txt")
+    with open(treq_p, "w") as f:
+        f.write("\n".join("parol-lr-table " + " ".join(c.split()[1:3]) for c in cases) + "\n")
+    okt, errt = common.run_impl("c03d", treq_p, tabs_p)
+    tabs = common.read_lines(tabs_p)
+    if not okt or len(tabs) != len(cases):
+        common.violation(ctx, "C03_c03d_table_run.json", {
+            "broken": "correspondence D:c03d (implementation driver crashed while building the LALR(1) tables)",
+            "stderr": errt, "replies": len(tabs), "cases": len(cases)}, no_input=True)
+        return
+    # oracle: hypotheses + statement of parol_lr_end_to_end on the REAL tables, all words up to length n
+    n = 4
+    reqs = ["parol-lr-check %d " % n + " ".join(c.split()[1:3]) + " " + t for c, t in zip(cases, tabs)]
+    # + the termination checker of the corollary parol_lr_decides (counted, not demanded: F24 tables fail it, see C19)
+    is_table = [len(t.split()) == 4 and not t.startswith("err") for t in tabs]
+    treqs = ["lr-term-ok " + " ".join(t.split()[1:4]) + " " + a.split()[1]
+             for t, a, ok in zip(tabs, impl, is_table) if ok and len(a.split()) == 2]
+    # + the named view of the model's result (only to count how often augment_grammar added a start symbol)
+    nreqs = ["parol-lr-named " + " ".join(c.split()[1:3]) for c in cases]
+    with open(ctx.path("c03d_oracle_req.txt"), "w") as f:
+        f.write("\n".join(reqs + treqs + nreqs) + "\n")
+    common.run_model(ctx.path("c03d_oracle_req.txt"), ctx.path("c03d_oracle_rep.txt"))
+    allreps = common.read_lines(ctx.path("c03d_oracle_rep.txt"))
+    reps, treps, nreps = allreps[:len(reqs)], allreps[len(reqs):len(reqs) + len(treqs)], allreps[len(reqs) + len(treqs):]
+    fails = [(c, t, r) for c, t, r in zip(cases, tabs, reps + ["<missing>"] * (len(cases) - len(reps))) if r != "ok"]
+    if fails:
+        fails.sort(key=lambda t: len(t[0]))
+        common.violation(ctx, "C03_c03d_oracle.json", {
+            "kind": "property fails on the implementation (oracle): the LALR(1) table parol really generates for an EBNF grammar "
+                    "does not pass the validators against the model's grammar, or does not accept exactly the sentences of the "
+                    "grammar as written",
+            "case": fails[0][0], "impl_reply": fails[0][1], "oracle": fails[0][2], "count": len(fails)})
+    elif diffs:
+        diffs.sort(key=lambda t: len(t[1]))
+        i, c, a, b = diffs[0]
+        common.violation(ctx, "C03_c03d_tie.json", {
+            "kind": "model pipeline parolLRGrammar and the real LALR(1) pipeline disagree; the property oracle found no failing input",
+            "broken": "correspondence D:c03d (theorems of ParolModel.Props.C03d no longer transfer to the code)",
+            "case": c, "impl_reply": a, "model_reply": b, "disagreements": len(diffs)}, no_input=True)
+    state.setdefault("coverage_extra", {})["c03d_front_to_back_tie"] = {
+        "cases": len(cases), "disagreements": len(diffs),
+        "grammars_accepted": sum(1 for a in impl if not a.startswith("err")),
+        "augmented_by_new_start_symbol": sum(1 for c, r in zip(cases, nreps) if r.startswith("ok ") and r.split()[1] != c.split()[1]),
+        "rejected_by_checks": sum(1 for a in impl if a.startswith(("err np", "err ur"))),
+        "real_tables": sum(is_table),
+        "real_tables_with_resolved_conflicts": sum(1 for t, ok in zip(tabs, is_table) if ok and t.split()[0] != "0"),
+        "not_lalr1": sum(1 for t in tabs if t.startswith("err lalr")),
+        "tables_passing_termination_checker": sum(1 for r in treps if r.startswith("ok")),
+        "oracle_checked": len(reqs), "oracle_failures": len(fails)}
+
+
 SPEC = {
+    "extra": c03d_tie,
     "prop": "lrrun",
     "gen_extra": ["plain"],
     "mod": "ParolModel.Props.C03",
-    "more_mods": ["ParolModel.Props.C03b", "ParolModel.Props.C03c"],
+    "more_mods": ["ParolModel.Props.C03b", "ParolModel.Props.C03c", "ParolModel.Props.C03d"],
     "files": FILES,
     "oracle_req": oracle_req,
     "nontrivial": nontrivial,
@@ -64,12 +135,13 @@ SPEC = {
         "completeness (every sentence accepted) is a theorem for every table that passes the verified validator lrCompleteCertB (lr_complete, Props/C03b.lean; translation validation, no assumption about lalry); that parol's conflict-free tables pass the validator is evaluated on every real table of the check (oracle lr-cert-ok), not proved for all grammars",
         "that table construction completes without crashing is observed (catch_unwind) on the explored conflict-free grammars; lalry panics on some conflicting grammars (finding F13, C26)",
         "tree/action half (Props/C03c.lean): lr_tree_actions, lr_reductions_rev_rightmost, lr_action_arity and lr_treeCheck_ok are theorems about the MODEL lrRun for every table that passes lrTableValid and every token sequence without a significant token of type 0 (lr_treeCheck_ok additionally: untrimmed run, token ids = positions, as the harness numbers them); for the real parser the same executable statement treeCheck is still evaluated on every successful real run (oracle lr-tree-check), and real output = model output is observed by the differential run",
+        "front to back (Props/C03d): parolLRGrammar composes the models of the front-end checks, canonicalisation (LALR(1) flavour, C09), the two grammar checks of the LALR(1) branch (C11), augment_grammar on names (C12) and parol's numbering (C18/C01d); the composition is tied to the real pipeline (obtain_grammar_config_from_string, check_and_transform_grammar(LALR1), the index functions GrammarLalr::from uses) byte for byte on random EBNF grammars; the table generator lalry is NOT modelled: the table is an input of parol_lr_end_to_end constrained by the validators lrTableValid and lrCompleteCertB, which the oracle parol-lr-check evaluates on every real table against the MODEL's grammar; in the EBNF model a terminal is one number (rendered as the string literal \"t<n>\"), i.e. terminals of different kinds with the same text (finding F11) are outside this tie",
     ],
 }
 
 CLAIM = {
     "category": "proof",
-    "text": "Theorem lr_sound: for EVERY table that passes the verified checker lrTableValid (accessing symbols consistent; state 0 without incoming transitions; every Reduce(A,p) only in states all of whose backward paths spell rhs(p), lhs(p)=A; Accept only on EOI in states whose backward paths spell the first start production and end in state 0; no shift on EOI) and EVERY token sequence, success of the model of LRParser::parse_into implies membership in the language of the transformed grammar — no assumption about lalry. The checker is evaluated on every real table. Theorem lr_complete (Props/C03b, translation validation in the style of Jourdan/Pottier/Leroy): for EVERY table that passes the verified validator lrCompleteCertB (LR(1) item sets computed as least fixpoint from state 0 along the table's own transitions, then verified: start items in state 0, closure w.r.t. closed nullable/FIRST tables, every item's next symbol has the matching shift/goto with the advanced item in the target, every completed item's lookaheads carry Reduce by that rule or Accept; start symbol isolated) every sentence is accepted, whatever the skip tokens and options without depth limit; lr_accepts_iff / lr_accepts_iff_bound (with the termination checker: the run with the explicit fuel lrSummFuel decides membership); exLRbad_incomplete shows a valid table that fails the validator and rejects a sentence. The validator is evaluated on every conflict-free real table (all pass). The model is tied to the code by exact differential runs (result, action trace with arguments, tree events, comments). Theorem lr_tree_actions (Props/C03c): for EVERY table that passes lrTableValid and EVERY token sequence, a successful run of the model has a derivation tree d with the skipped tokens attached (DTree: token leaf | production application node p lhs kids; d.wf: every inner node is production p of the grammar with lhs = its left-hand side and its counting children = its right-hand side in order) that is rooted at the start symbol, has the significant token types of the input as frontier, whose post-order list of production applications with their counting children as arguments IS the recorded action trace (every application once, children before parents), whose leaves preceded by the leading skipped tokens are all delivered tokens in order, and whose pre-order event rendering below the artificial root IS the recorded tree. dtree_is_derivation: a well-formed tree derives its frontier (Yield); dtree_postorder_rev_rightmost / lr_reductions_rev_rightmost: the reported reductions read backwards are a rightmost derivation (RmDeriv: each step rewrites a non-terminal followed by terminals only) of the input from the start symbol; lr_action_arity: every recorded action of production p has exactly |rhs p| arguments and they are rhs p in order (finding F20 violated exactly this in the real code); lr_treeCheck_ok: the executable statement treeCheck, instantiated as in the handler lr-tree-check (lrTreeCheck_eq_handler), accepts the model's own output on every successful untrimmed run. Equality with the ORIGINAL grammar's language (through parol's transformations) is decided on the real output per explored grammar by the verified membership recogniser; for the REAL parser the tree/reduction clauses are decided per run by the same executable statement treeCheck (inner node = production with its rhs as significant children in order; reductions once each in post-order = reverse rightmost derivation; root = start symbol; leaves = all tokens) and transfer from the model through the exact differential comparison.",
+    "text": "FRONT-TO-BACK theorem (Props/C03d): parol_lr_end_to_end — for the executable composition parolLRGrammar of the models of the whole LALR(1) path up to the table construction (front-end checks, EBNF canonicalisation with left-recursive repetition helpers C09, the non-productive/unreachable checks C11 — no left-recursion check on this branch —, augment_grammar on names C12, numbering of non-terminals and terminals as GrammarLalr::from does it) and every EBNF grammar E and start symbol: if parolLRGrammar yields the grammar G then for EVERY table T with T.start = G.start that passes lrTableValid T G.prods and lrCompleteCertB T G.prods, every token sequence without a significant token of type 0 and every option record without depth limit, the parser model accepts iff the significant token types are the image, under the (injective: parol_lr_numbering_injective) terminal numbering, of a sentence of E AS WRITTEN (groups, optionals, repetitions) — the table generator lalry is not modelled, the table is a validated input; parol_lr_sound (only lrTableValid, any options, tables with resolved conflicts included), parol_lr_complete (only the certificate), parol_lr_decides (with lrNoReduceLoopB the run with the explicit fuel lrSummFuel decides membership), parol_lr_tree (derivation tree of G rooted at its start symbol = recorded actions in post-order = reverse rightmost derivation, frontier a sentence of E), parol_lr_grammar_lang (Lang G = image of LangE E), parol_lr_start_isolated (the start symbol of G has one production and is on no right-hand side), augmentN_matches_c12. parolLRGrammar is tied to the real pipeline byte for byte on random EBNF grammars; the oracle parol-lr-check evaluates the hypotheses (both validators against the MODEL grammar) and the statement (all words up to length 4, verified membership recogniser) on every real lalry table. Theorem lr_sound: for EVERY table that passes the verified checker lrTableValid (accessing symbols consistent; state 0 without incoming transitions; every Reduce(A,p) only in states all of whose backward paths spell rhs(p), lhs(p)=A; Accept only on EOI in states whose backward paths spell the first start production and end in state 0; no shift on EOI) and EVERY token sequence, success of the model of LRParser::parse_into implies membership in the language of the transformed grammar — no assumption about lalry. The checker is evaluated on every real table. Theorem lr_complete (Props/C03b, translation validation in the style of Jourdan/Pottier/Leroy): for EVERY table that passes the verified validator lrCompleteCertB (LR(1) item sets computed as least fixpoint from state 0 along the table's own transitions, then verified: start items in state 0, closure w.r.t. closed nullable/FIRST tables, every item's next symbol has the matching shift/goto with the advanced item in the target, every completed item's lookaheads carry Reduce by that rule or Accept; start symbol isolated) every sentence is accepted, whatever the skip tokens and options without depth limit; lr_accepts_iff / lr_accepts_iff_bound (with the termination checker: the run with the explicit fuel lrSummFuel decides membership); exLRbad_incomplete shows a valid table that fails the validator and rejects a sentence. The validator is evaluated on every conflict-free real table (all pass). The model is tied to the code by exact differential runs (result, action trace with arguments, tree events, comments). Theorem lr_tree_actions (Props/C03c): for EVERY table that passes lrTableValid and EVERY token sequence, a successful run of the model has a derivation tree d with the skipped tokens attached (DTree: token leaf | production application node p lhs kids; d.wf: every inner node is production p of the grammar with lhs = its left-hand side and its counting children = its right-hand side in order) that is rooted at the start symbol, has the significant token types of the input as frontier, whose post-order list of production applications with their counting children as arguments IS the recorded action trace (every application once, children before parents), whose leaves preceded by the leading skipped tokens are all delivered tokens in order, and whose pre-order event rendering below the artificial root IS the recorded tree. dtree_is_derivation: a well-formed tree derives its frontier (Yield); dtree_postorder_rev_rightmost / lr_reductions_rev_rightmost: the reported reductions read backwards are a rightmost derivation (RmDeriv: each step rewrites a non-terminal followed by terminals only) of the input from the start symbol; lr_action_arity: every recorded action of production p has exactly |rhs p| arguments and they are rhs p in order (finding F20 violated exactly this in the real code); lr_treeCheck_ok: the executable statement treeCheck, instantiated as in the handler lr-tree-check (lrTreeCheck_eq_handler), accepts the model's own output on every successful untrimmed run. Equality with the ORIGINAL grammar's language (through parol's transformations) is decided on the real output per explored grammar by the verified membership recogniser; for the REAL parser the tree/reduction clauses are decided per run by the same executable statement treeCheck (inner node = production with its rhs as significant children in order; reductions once each in post-order = reverse rightmost derivation; root = start symbol; leaves = all tokens) and transfer from the model through the exact differential comparison.",
     "design_ref": "DESIGN.md §6 C03",
     "note": "Trusted: Lean kernel; faithfulness of the hand-written model as observed by the differential run; harness and orchestrator. Not proved: that lalry's construction always yields tables passing the validators (lalry is external; validated per table). Cyclic grammars are excluded from this generator because the real parser does not terminate on them (F24, reported under C19).",
     "technique": "Lean 4 proof (soundness, completeness and derivation-tree/action clauses for all validated tables and all inputs; translation validation of the real LALR(1) tables) over hand-written model + differential correspondence check + verified table checker and membership oracle on real output",
